@@ -50,6 +50,11 @@ CHECKS = {
                   "Tie: exhaustive over indices 0..=231 and every table symbol: from_index, index, both symbols, z, transformations (re-encoded from the f64 matrices), Symmetry::new; oracle additionally checks closure in integer arithmetic, transformations_absolute for three cells, and the CRYST1 / mmCIF round trip of every group at every writer level.",
              note="Translator trusted for: parsing the three literal arrays, mapping each float to the nearest twelfth / integer (refuses when further than 1e-7 / 1e-9). CRYST1 and mmCIF round trips are decided by the tie and oracle only (writer/reader models belong to C03/C04). Open finding: 10 groups whose symbols exceed the 11-column CRYST1 field.",
              technique="Lean 4 decide +kernel over regenerated tables (translator) + exhaustive differential correspondence", ref="DESIGN §7 C17"),
+ 'C13': dict(text="Theorems in every commutative ring: identity, combined transformation = parts applied in the stated order (hence associativity), axis rotations preserve squared distances and dot products of difference vectors for every (s, c) with s^2+c^2=1, translations shift, magnification scales squared distances by f^2, multiply_translation scales only the translation; "
+                  "at every level applying a transformation maps each atom's position and changes nothing else. Tie (exact, bit for bit): integer rotation parts and 1/8-multiple translations/points, for which every product and sum (also through mul_add) is exact in f64, compared with the model instantiated at Int; compositions of 2-6 factors; constructor layouts (rotations symbolically through sin/cos stand-ins); "
+                  "apply_transformation and par_apply_transformation at six levels under pools of 1-16 threads.",
+             note="IEEE rounding on non-representable values and sin_cos are not modelled (rotation isometry is additionally checked numerically on the implementation with relative tolerance 1e-9); thread schedules not modelled.",
+             technique="Lean 4 + Mathlib ring / linear_combination over an arbitrary commutative ring + exact differential correspondence at the Int instance", ref="DESIGN §7 C13"),
 }
 NOT_APPLICABLE = {}
 ALL = ['C%02d' % i for i in range(1, 19)]
